@@ -8,7 +8,8 @@ CHECK = {
         "schedules are interleavings of whole storage operations of registered request goroutines (the storage-step scheduler); "
         "instructions between two storage operations are not interleaved",
         "the engine-level cas_required is read by a write at an unspecified moment of the request: while an engine-config write "
-        "overlaps a write without cas either value is accepted; delete_version_after and engine-level max_versions stay unset",
+        "overlaps a write without cas either value is accepted; delete_version_after stays unset; engine-level max_versions is set only in the failedconfig unit",
+        "key-level and engine-level max_versions are never both set in one history (the docs say the key setting can overwrite the engine value, the code takes the larger of the two: left open)",
         "the in-memory transactional backend (snapshot at begin, validation at commit) stands for transactional storage",
     ],
     "units": [
